@@ -118,6 +118,16 @@ func verifOutParked(o *OutputStream) int {
 	return int(uint32(nl.FieldByName("wait").Uint()) - uint32(nl.FieldByName("notify").Uint()))
 }
 
+// verifWait scales a wall-clock bound: the bounds only cost time when something is really stuck,
+// so they are generous; $VERIF_WAIT_SCALE multiplies them (the check re-runs a scenario that timed
+// out in isolation with larger bounds before it reports it).
+func verifOutWait(d time.Duration) time.Duration {
+	if s, err := strconv.ParseFloat(os.Getenv("VERIF_WAIT_SCALE"), 64); err == nil && s > 0 {
+		return time.Duration(float64(d) * s)
+	}
+	return d
+}
+
 // verifOutGuard runs f; false if it does not finish in time (the stream's mutex is held by a
 // call that died inside GetNext).
 func verifOutGuard(d time.Duration, f func()) bool {
@@ -214,7 +224,7 @@ func verifOutRunCase(f []string, tmp string) string {
 
 	// settle waits until every unfinished reader is parked; reports a reader panic
 	settle := func() (string, bool) {
-		deadline := time.Now().Add(5 * time.Second)
+		deadline := time.Now().Add(verifOutWait(20 * time.Second))
 		for {
 			unfinished := 0
 			for _, t := range order {
@@ -291,11 +301,11 @@ loop:
 	for _, r := range readers {
 		r.cancel()
 	}
-	if !poisoned && !verifOutGuard(2*time.Second, func() { o.InterruptGetNext() }) {
+	if !poisoned && !verifOutGuard(verifOutWait(10*time.Second), func() { o.InterruptGetNext() }) {
 		poisoned = true
 	}
 	if !poisoned {
-		deadline := time.Now().Add(5 * time.Second)
+		deadline := time.Now().Add(verifOutWait(20 * time.Second))
 	cleanup:
 		for {
 			unfinished := false
